@@ -113,6 +113,19 @@ def strLit? : E → Option String
   | lit (.str s) => some s
   | _ => none
 
+/-- the first token written for `e` is the `!` of `!<number or string literal>`.  Directly after `<` or `<<` the Go
+    printer takes the `<!--` branch (`isLtNot`) and skips the `!5 → !1` rewrite; that context is outside the model -/
+def startsNotLit : E → Bool
+  | unary .not (lit (.num _)) => true
+  | unary .not (lit (.str _)) => true
+  | unary op x => (op == .postinc || op == .postdec) && startsNotLit x
+  | bin _ x _ => startsNotLit x
+  | call f _ => startsNotLit f
+  | dot x _ => startsNotLit x
+  | index x _ => startsNotLit x
+  | group x => startsNotLit x
+  | _ => false
+
 /-- the literal cases of `!x`: `!"" → !0`, `!"s" → !1`, `!5 → !1` -/
 def notLit (x : E) : Option E :=
   match x with
@@ -134,6 +147,7 @@ def descend (rw : E → Prec → Option E) (rec : E → Prec → Option E) (e1 :
     | bin op x y =>
       if mergesStrings op x y then none else
       if isAssignLike op && !assignable x then none else
+      if (op == .lt || op == .shl) && startsNotLit y then none else
       -- convert (a,b)&&c into a,b&&c at statement level: the last item becomes the left operand
       match hoistList op x p with
       | some l =>
